@@ -8,6 +8,13 @@ def hook_commits():
     return [l.split()[0] for l in out.splitlines() if "verif hook" in l]
 
 CLAIMED = {
+ "C11": dict(
+   level="exploration",
+   text="Node under test (all four real processors, timer-driven bundling and mining) with an honest scripted peer and an attacker holding an authenticated or unauthenticated connection plus a second unauthenticated one: 3..25/80 moves, two thirds hostile from a 22-entry catalogue (every odd message tag, storms, second handshake with another key, announcements answered with garbage or with well-formed hostile blocks, hostile transactions, reconnect storms) interleaved with honest blocks/transactions, timer rounds and clock jumps; the system runs to quiescence after each move. Oracle: no handler panics, quiescence within the step cap, and after a hostile move the digest of tip / stored blocks / spendable set / pool / honest peer entry / its key mapping is unchanged.",
+   design="§6 C11",
+   note="Trusted: scripted peers, hostile-block construction (universe builder + reseal). Orphan deliveries are not generated here. Event-granularity scheduling.",
+   technique="deterministic simulation: seeded hostile-peer message/fetch/connection sequences interleaved with honest traffic, panic/stall/state-digest oracle"),
+
  "C10": dict(
    level="fault_enumeration",
    text="Catalogue of 26 valid encodings produced by a real history (every message tag, blocks, transaction, slip, hop, golden-ticket payload, wallet file, block file, fetched buffer); for each: ALL truncation lengths, every 4-byte window of the first 400 / last 20 bytes set to 11 boundary values and true value +-1, seeded bit flips and random strings. Every variant goes to the decoder directly (no panic; peak allocation <= 16*len + 1 MiB measured by a counting allocator) and through the real entry point of a live node (IncomingNetworkMessage from an authenticated peer followed to quiescence, BlockFetched buffer, file present at restart).",
